@@ -413,3 +413,66 @@ def root_field_pred(model, func, field):
         return direct(e) or (isinstance(e, ast.Name) and e.id in field_locals)
 
     return pred
+
+
+def signal_first_exit(m, sig):
+    """In an evaluator that runs a body (`result = <x>.evaluate(..)`) and then inspects the control signal: the first
+    statement that leaves the function when the result is the signal `sig` ('isReturn' / 'isBreak' / 'isContinue'),
+    found by partially evaluating the statements after the evaluation.  -> (result variable, Return/Raise or None)"""
+    from ..partial import prune
+
+    def find_rest(stmts):
+        for i, st in enumerate(stmts):
+            if isinstance(st, ast.Assign) and isinstance(st.targets[0], ast.Name) and any(
+                    isinstance(x, ast.Call) and isinstance(x.func, ast.Attribute) and x.func.attr == "evaluate"
+                    for x in ast.walk(st.value)):
+                return st.targets[0].id, stmts[i + 1:]
+            for fld in ("body", "orelse", "finalbody"):
+                sub = getattr(st, fld, None)
+                if isinstance(sub, list) and sub and isinstance(sub[0], ast.stmt):
+                    r = find_rest(sub)
+                    if r:
+                        return r
+        return None
+
+    fr = find_rest(m.node.body)
+    if fr is None:
+        return None, None
+    var, rest = fr
+    known_ = {f"{var}.{k}()": (k == sig) for k in ("isReturn", "isBreak", "isContinue")}
+    known_.update({f"isinstance({var}, ValueControl{k[2:]})": (k == sig) for k in ("isReturn", "isBreak", "isContinue")})
+    stmts, _ = prune(rest, known_)
+    for st in stmts:
+        if isinstance(st, (ast.Return, ast.Raise)):
+            return var, st
+        if isinstance(st, (ast.If, ast.For, ast.While, ast.Try, ast.With)):
+            return var, None
+    return var, None
+
+
+def collection_sources(model, prop="*"):
+    """What nodes.getCollectionValue hands to comprehensions for a set and for a map, per returned expression:
+    [(kind, return node, in sorted-key order?, text, sorted by value?)]; None when the function is not understood."""
+    from ..partial import prune
+    gcv = model.func(prop, "nodes", "getCollectionValue")
+    cparam = gcv.params[0]
+    ckinds = sorted({x.func.attr for x in ast.walk(gcv.node) if isinstance(x, ast.Call)
+                     and isinstance(x.func, ast.Attribute) and norm(x.func.value) == cparam
+                     and x.func.attr.startswith("is") and not x.args})
+    if "isMap" not in ckinds or "isSet" not in ckinds:
+        return None
+    out = []
+    for kind in ("isSet", "isMap"):
+        body, _ = prune(gcv.node.body, {f"{cparam}.{k}()": k == kind for k in ckinds})
+        rets = [r for st_ in body for r in ast.walk(st_) if isinstance(r, ast.Return) and r.value is not None]
+        if not rets:
+            return None
+        for r in rets:
+            t = norm(r.value)
+            by_key = any(k in t for k in ("getSortedKeys()", "getSortedItems()")) or any(
+                isinstance(c_, ast.Call) and norm(c_.func) == "sorted" and c_.args
+                and not norm(c_.args[0]).endswith(".values()") for c_ in ast.walk(r.value))
+            by_value = any(isinstance(c_, ast.Call) and norm(c_.func) == "sorted" and c_.args
+                           and norm(c_.args[0]).endswith(".values()") for c_ in ast.walk(r.value))
+            out.append((kind, r, by_key and not (kind == "isMap" and by_value), t, by_value))
+    return out
